@@ -282,6 +282,9 @@ def run(ctx):
                 continue
             r = H.run(it['key'])
             bad = r.abort
+            live = [p_ for p_ in (r.panics or []) if p_.cond is not tm.FALSE] if not bad else []
+            if live:
+                bad = 'the conversion can panic (%s in %s): it is not a total function of the value' % (live[0].kind, live[0].fn)
             if not bad:
                 src_ty, dst_ty = aty, rty
                 rowmajor = 'RowMatrix' in an or 'RowMatrix' in rn
